@@ -48,6 +48,7 @@ static void run_case(Proto p,const std::vector<const AReq*> &reqs,const std::str
 	else if(p==SCGI){ Resp r=parse_cgi(x.reply); if(!r.ok||r.status!=200){ vf::violation("bad-reply:scgi","SCGI reply malformed or status "+std::to_string(r.status)+": "+r.err+" ["+how+"]","\"case\":"+vf::jstr(how)+",\"choices\":"+vf::jstr(e.str())); return; } bodies.push_back(r.body); }
 	else { FcgiOut f=parse_fcgi(x.reply); if(!f.ok){ vf::violation("bad-reply:fastcgi","FastCGI reply malformed: "+f.err+" ["+how+"]","\"case\":"+vf::jstr(how)+",\"choices\":"+vf::jstr(e.str())); return; } Resp r=parse_cgi(f.out); if(!r.ok||r.status!=200){ vf::violation("bad-reply:fastcgi","FastCGI STDOUT malformed or status "+std::to_string(r.status)+" ["+how+"]","\"case\":"+vf::jstr(how)+",\"choices\":"+vf::jstr(e.str())); return; } bodies.push_back(r.body); }
 	for(size_t i=0;i<reqs.size();i++){ std::string want=expected_dump(*reqs[i]); if(bodies[i]!=want){ std::string d=first_diff(bodies[i],want); std::string field=d.size()>5?d.substr(5,1):"?"; vf::violation(std::string("request-differs:")+PROTO_NAME[p]+":"+reqs[i]->label,"application observed a request different from the one encoded ("+d+") ["+how+(keep?" request#"+std::to_string(i+1):"")+"]","\"case\":"+vf::jstr(how)+",\"choices\":"+vf::jstr(e.str())); return; } }
+	{ static uint64_t sc=0; if(vf::sample_tick(sc,1009)) vf::sample("{\"case\":"+vf::jstr(cs)+",\"stream_bytes\":"+std::to_string(bytes.size())+",\"read_answers\":"+vf::jstr(e.str())+",\"result\":\"application observed the encoded request\"}"); }
 	vf::outcome(std::string(PROTO_NAME[p])+reqs[0]->label+std::to_string(reqs.size())+(e.str().find_first_not_of("0,")==std::string::npos?"d":"s")); }
 
 static void explore_reads(Proto p,const std::vector<const AReq*> &reqs,const std::string &bytes,const std::string &cs,int dev){ g_explore_reads=true; bool complete=true; vf::explore(dev,[&](vf::Envx &e){ run_case(p,reqs,bytes,cs,e); },&complete,[](){ return vf::deadline_reached()||vf::nviol()>40; }); g_explore_reads=false; if(!complete) vf::C().exhaustive=false; }
